@@ -32,6 +32,7 @@ CHECKS = {
     "C12": ("p_split", "c12"),
     "C13": ("p_rewrites", "c13"),
     "C15": ("p_history", "c15"),
+    "C19": ("p_capacity", "c19"),
 }
 
 
